@@ -190,3 +190,15 @@ def guards(acc, tier):
     if len(acc.outcomes) < 500:
         msgs.append('fewer than 500 distinct outcomes')
     return msgs
+
+
+def unit_test(case):
+    spec, seq = case['spec'], case['seq']
+    msteps, mend = harness.model_steps(spec, seq)
+    src = opspecs.to_source(harness.strip_taps(spec), 2)
+    return ("import sys\nsys.path[:0] = ['/repo', '/verif']\nimport rx\nfrom rx.subject import Subject\nimport rxsci as rs\n"
+            "from mc.opspecs import FUNCS as F\n\nsource, out, steps = Subject(), [], []\n"
+            "source.pipe(rs.state.with_memory_store([\n%s])).subscribe(on_next=out.append)\n"
+            "for x in %r:\n    n = len(out)\n    source.on_next(x)\n    steps.append(out[n:])      # emitted while x was processed\n"
+            "n = len(out)\nsource.on_completed()\nsteps.append(out[n:])\nprint(steps)\n"
+            "print('reference interpreter:', %r)\n" % (src, seq, msteps + [mend]))
